@@ -572,3 +572,102 @@ def seeded_layout(doc, d, seed, mode="light"):
             # a '#' comment that runs to the end of the text (no final LF)
             text += " #" + rng.choice(_H_BODIES)
     return text
+
+
+# ------------------------------------------- structured documents (C08, C18)
+@functools.lru_cache(maxsize=None)
+def stmt_nodes(d, depth=0):
+    """Like statements(), but returns nodes:
+       ("assign", name, value_tokens, canon, semi)
+       ("block", kind, begin_kw, end_kw, name, body_nodes, end_named, semi1, semi2)
+    """
+    @st.composite
+    def assignment(draw):
+        name = draw(param_names(d))
+        toks, canon = draw(values(d))
+        return ("assign", name, toks, canon, draw(st.integers(0, 9)) < 3)
+
+    @st.composite
+    def block(draw):
+        kind = draw(st.sampled_from(["grp", "obj"]))
+        pairs = BLOCK_KW[kind]
+        if d in ("ISIS", "ISISv"):
+            pairs = pairs[:1]
+        b, e = draw(st.sampled_from(pairs))
+        b = draw(mixed_case(b))
+        e = draw(mixed_case(e))
+        name = draw(identifiers().filter(not_reserved))
+        body = draw(st.lists(stmt_nodes(d, depth + 1), min_size=1, max_size=4))
+        return ("block", kind, b, e, name, body, draw(st.booleans()),
+                draw(st.integers(0, 9)) < 2, draw(st.integers(0, 9)) < 2)
+
+    if depth >= 2:
+        return assignment()
+    return st.one_of(assignment(), assignment(), assignment(), block())
+
+
+def count_assignments(nodes):
+    n = 0
+    for nd in nodes:
+        if nd[0] == "assign":
+            n += 1
+        else:
+            n += count_assignments(nd[5])
+    return n
+
+
+def flatten_nodes(nodes, gaps=frozenset(), counter=None):
+    """Returns (tokens, items, gap_eq_token_indices).  *gaps* is a set of
+    assignment ordinals (document order) whose value (and units) is removed."""
+    if counter is None:
+        counter = [0]
+    toks, items, gap_eqs = [], [], []
+    for nd in nodes:
+        if nd[0] == "assign":
+            _, name, vtoks, canon, semi = nd
+            k = counter[0]
+            counter[0] += 1
+            toks += [T(name), T("=", "eq")]
+            if k in gaps:
+                gap_eqs.append(len(toks) - 1)
+                items.append((name, ("str", "")))
+            else:
+                toks += vtoks
+                items.append((name, canon))
+            if semi:
+                toks.append(T(";", "semi"))
+        else:
+            _, kind, b, e, name, body, end_named, semi1, semi2 = nd
+            toks += [T(b), T("=", "eq"), T(name)]
+            if semi1:
+                toks.append(T(";", "semi"))
+            off = len(toks)
+            t2, i2, g2 = flatten_nodes(body, gaps, counter)
+            toks += t2
+            gap_eqs += [off + g for g in g2]
+            toks.append(T(e))
+            if end_named:
+                toks += [T("=", "eq"), T(name)]
+            if semi2:
+                toks.append(T(";", "semi"))
+            items.append((name, (kind, tuple(i2))))
+    return toks, items, gap_eqs
+
+
+def layout_with_positions(toks, d, seed, mode="full", final=""):
+    """Seeded layout; returns (text, start index of every token)."""
+    rng = _random.Random(seed)
+    out, pos, n = [], [], 0
+    lead = _sep(rng, d, False, mode) if toks else ""
+    out.append(lead)
+    n += len(lead)
+    for i, t in enumerate(toks):
+        if i:
+            sp = _sep(rng, d, gap_required(toks[i - 1], t), mode)
+            out.append(sp)
+            n += len(sp)
+        pos.append(n)
+        out.append(t[0])
+        n += len(t[0])
+    out.append(final)
+    return "".join(out), pos
